@@ -139,6 +139,9 @@ def run_case(case):
                         continue
                     if tuple(picked.shape) != tuple(vals.shape):
                         out.append(harness.disc("selection-shape-mismatch", f"/imagery/{gname}#data", tuple(picked.shape), vals.shape, sel=sel))
+                    declared = picked.dtype
+                    if not isinstance(declared, np.dtype) or vals.dtype.newbyteorder("=") != declared.newbyteorder("="):
+                        out.append(harness.disc("selection-dtype-mismatch", f"/imagery/{gname}#data", declared, vals.dtype, sel=sel))
     return out
 
 
